@@ -20,6 +20,7 @@ func init() {
 			ruleDeepCopy(c, r, "")
 			ruleOpSiblings(c, r, "")
 			ruleBudgetFresh(c, r, "")
+			ruleLookahead(c, r, "")
 			cone := c.Cone(nonNilFns(c.Func("lzma", "Writer2.Write"), c.Func("lzma", "Writer2.Flush"), c.Func("lzma", "Writer2.Close"),
 				c.Func("lzma", "Writer2Config.NewWriter2"))...)
 			ruleIO(c, r, cone, "", true)
